@@ -1,6 +1,52 @@
 """C02 - nothing is reported that the body does not do."""
+import itertools
+import json
+
+import common as C
+import diaglib as D
 import fa_run
+
+# class initialisers rattr synthesises (Enum members, NamedTuple fields): the class analyser is not part of the model; the
+# rule judged here is the property's own - the initialiser of a class reports nothing its body does not do: for an Enum
+# class only its OWN members `K.<member>`, for a NamedTuple class nothing at all.  Class names are chosen so that one is
+# a prefix of another and of a module-level variable.
+ENUM_NAMES = [("Color", "ColorMode", "ColorLike"), ("Mode", "ModeSet", "Mode_default"), ("Ab", "A", "Abc")]
+
+
+def class_initialiser_suite(tier):
+    out = []
+    jobs = []
+    with D.Scratch() as root:
+        for i, (k1, k2, var) in enumerate(ENUM_NAMES):
+            for order in itertools.permutations(range(3)):
+                parts = [f"class {k1}(Enum):\n    RED = 1\n    GREEN = 2\n", f"class {k2}(Enum):\n    RGB = 1\n    CMYK = 2\n", f"{var} = 3\n"]
+                src = ("from enum import Enum\nfrom typing import NamedTuple\n\n" + "\n".join(parts[j] for j in order)
+                       + f"\nclass Pt{i}(NamedTuple):\n    x: int\n    y: int\n\nclass Pt{i}Cloud(NamedTuple):\n    pts: list\n\n"
+                       + f"def use(a):\n    return {k1}(a.v), {k2}(a.w), Pt{i}(a.px, a.py)\n")
+                d = root / f"e{i}_{''.join(map(str, order))}"
+                d.mkdir()
+                (d / "target.py").write_text(src)
+                jobs.append((d, src, {k1: {f"{k1}.RED", f"{k1}.GREEN"}, k2: {f"{k2}.RGB", f"{k2}.CMYK"}, f"Pt{i}": set(), f"Pt{i}Cloud": set()}))
+        runs = D.pmap(lambda j: D.run_rattr(j[0], ["-w", "none", "-o", "results", "target.py"]), jobs)
+    for (d, src, want), r in zip(jobs, runs):
+        try:
+            doc = json.loads(r["stdout"])
+        except Exception:  # noqa: BLE001
+            out.append({"why": "the class-initialiser module could not be analysed", "source": src, "exit": r["exit"], "stderr": r["stderr"][-300:]})
+            continue
+        for cls, allowed in want.items():
+            got = doc.get(cls)
+            if got is None:
+                continue
+            extra_names = sorted((set(got["gets"]) | set(got["sets"]) | set(got["dels"])) - allowed)
+            if extra_names:
+                out.append({"why": f"the initialiser of class {cls} reports names its body does not contain: {extra_names}", "source": src,
+                            "results_of_class": got, "allowed": sorted(allowed)})
+                break
+    return out
+
 
 def main(tier):
     return fa_run.check("C02", tier, new_bits=8, kf_bit=8, kf_requires=4096, beyond_bit=8192, proof_files=["proofs/FaFacts.v", "proofs/FaMono.v", "proofs/C02Proofs.v", "proofs/C01Complete.v", "proofs/C02Sound.v", "props/C02.v"],
-                        what="a reported name is neither the spelling of an expression of the body (right kind) nor a documented derivation", kf_prefix="KF_C02")
+                        what="a reported name is neither the spelling of an expression of the body (right kind) nor a documented derivation", kf_prefix="KF_C02",
+                        extra=class_initialiser_suite)
